@@ -97,10 +97,24 @@ struct Exchange {
 
 /// Send one client-built request to the in-process mock.
 fn exchange(server: &TMutex<OmahaServer>, req: http::Request<hyper::Body>, meta: Option<RequestMetadata>) -> Result<Exchange, String> {
+    exchange_via(server, req, meta, false)
+}
+
+/// `reencode`: the transport re-serialises the query the way `url::Url::query_pairs_mut()` does (an
+/// equivalent spelling: the ':' inside cup2key becomes %3A) before it reaches the server.
+fn exchange_via(server: &TMutex<OmahaServer>, req: http::Request<hyper::Body>, meta: Option<RequestMetadata>, reencode: bool) -> Result<Exchange, String> {
     let (parts, body) = req.into_parts();
     let body = block_on(hyper::body::to_bytes(body)).map(|b| b.to_vec()).unwrap_or_default();
     let req_json: Value = serde_json::from_slice(&body).unwrap_or(Value::Null);
-    let mut b = hyper::Request::builder().method(parts.method.clone()).uri(origin_form(&parts.uri));
+    let mut target = origin_form(&parts.uri);
+    if reencode {
+        if let Some(p) = target.find("cup2key=") {
+            let end = target[p..].find('&').map(|k| p + k).unwrap_or(target.len());
+            let v = target[p..end].replace(':', "%3A");
+            target = format!("{}{}{}", &target[..p], v, &target[end..]);
+        }
+    }
+    let mut b = hyper::Request::builder().method(parts.method.clone()).uri(target.as_str());
     for (k, v) in parts.headers.iter() {
         b = b.header(k, v);
     }
@@ -232,6 +246,11 @@ pub fn run(args: &Args, r: &mut Report) {
         let n_apps = 1 + rng.usize(4);
         let mut apps = gen_apps(&mut rng, n_apps);
         rng.shuffle(&mut apps);
+        // an app in the (legitimate) empty-string cohort
+        if rng.chance(1, 5) {
+            let k = rng.usize(apps.len());
+            apps[k].cohort[0] = Some(String::new());
+        }
         let keys = gen_keys(&mut rng);
         let cup = rng.chance(3, 4);
         let (url, url_class) = gen_service_url(&mut rng);
@@ -281,7 +300,8 @@ pub fn run(args: &Args, r: &mut Report) {
                 }
             };
             let ctx = format!("case {} exchange {} ({} url={} keys={} cup={})", i, e, if is_uc { "update-check" } else { "event" }, url, keys.label, cup);
-            let res = guard(|| exchange(&server, req, meta));
+            let reencode = rng.chance(1, 5);
+            let res = guard(|| exchange_via(&server, req, meta, reencode));
             m.hit("c17-no-panic");
             match res {
                 Err(p) => {
